@@ -275,6 +275,11 @@ def dense_form(text: str) -> str:
     return "splat"
 
 
+def contains_location(r) -> bool:
+    """Does the recipe contain a location attribute (at any depth)?"""
+    return r[0].startswith("loc_") or any(contains_location(c) for c in G.children(r))
+
+
 def describe(r, a, text) -> dict:
     """Discriminating features of a (blamed) node for the signature."""
     tag = r[0]
@@ -309,7 +314,8 @@ def describe(r, a, text) -> dict:
     elif tag == "opaque":
         d["value_class"] = worst_str([r[1], r[2]])
     elif tag == "loc_fused":
-        d["value_class"] = "metadata" if r[2] is not None else "no_metadata"
+        d["value_class"] = ("no_metadata" if r[2] is None else
+                            "metadata_with_location" if contains_location(r[2]) else "metadata")
     else:
         d["value_class"] = "-"
     return d
@@ -399,7 +405,7 @@ def run_recipe(h, r, label):
     for br, ba, btext, (entry, kind, detail) in blamed:
         sig = {"check": "roundtrip", "cls": type(ba).__name__, "kind": kind, "entry": entry}
         sig.update(describe(br, ba, btext))
-        if kind.startswith("parse_"):
+        if kind.startswith("parse_") and sig.get("value_class") != "metadata_with_location":
             sig["err"] = re.sub(r"\d+", "N", detail)[:60]
         h.mismatch(sig, br, f"{type(ba).__name__} printed as {btext[:300]!r}: {kind}: {detail}")
 
